@@ -230,6 +230,10 @@ def random_trace(rec, rng, D, steps, gapcap, caller=None):
         rel = ts + delay
 
 
+# one call is one request on the wire, however long its argument is (2, 65, 150 and 200 names)
+BIG_LISTS = [["1.3.6.1.4.1.9999.5.1", "1.3.6.1.4.1.9999.5.2"]] + [["1.3.6.1.4.1.9999.5.%d" % (i % 5 + 1) for i in range(n)] for n in (65, 150, 200)]
+
+
 def paced_run(client, pattern, cfg, rps, n):
     """n get() calls through rate-limited session(s), each inside its own `with` block (pattern reenter) or alternating between two
     sessions that share one RPSPolicer (pattern shared).  Returns the Rate event (microseconds, measured at the agent), or None when
@@ -498,7 +502,7 @@ def session_binding(chk, thorough):
                     for k in range(8):
                         try:
                             if k % 2:
-                                api.session.get_many(["1.3.6.1.4.1.9999.5.1", "1.3.6.1.4.1.9999.5.2"])
+                                api.session.get_many(BIG_LISTS[k % len(BIG_LISTS)])
                             else:
                                 api.session.get("1.3.6.1.4.1.9999.5.%d" % (k % 5 + 1))
                         except Exception:
@@ -519,7 +523,7 @@ def session_binding(chk, thorough):
                         for k in range(8):
                             try:
                                 if k % 2:
-                                    await api2.session.get_many(["1.3.6.1.4.1.9999.5.1", "1.3.6.1.4.1.9999.5.2"])
+                                    await api2.session.get_many(BIG_LISTS[k % len(BIG_LISTS)])
                                 else:
                                     await api2.session.get("1.3.6.1.4.1.9999.5.%d" % (k % 5 + 1))
                             except Exception:
